@@ -95,9 +95,55 @@ let do_sched line =
        ^ (if !dl then " <deadlock>" else "")
      | _ -> raise Bad)
   | _ -> raise Bad
+(* ---- "regs" cases: InfoConcRegDefs.rstep (register / unregister / lookup by several threads) ---- *)
+let parse_rop tok =
+  match String.split_on_char ':' tok with
+  | [k; n] -> let n = int_of_string n in
+    if n < 0 || n >= maxn then raise Bad else
+      (match k with "R" -> QReg (nat_of_int n) | "U" -> QUnreg (nat_of_int n) | "L" -> QLook (nat_of_int n) | _ -> raise Bad)
+  | _ -> raise Bad
+let prres x =
+  let snap = match x.x_snap with
+    | None -> "{?}"
+    | Some l -> "{" ^ String.concat "," (List.map (fun (i, n) -> string_of_int (int_of_nat i) ^ "=" ^ string_of_int (int_of_nat n)) l) ^ "}" in
+  (match x.x_kind with
+   | KReg -> " R=" ^ pid x.x_ret
+   | KUnreg -> " U=" ^ pid x.x_ret
+   | KSkip -> " U=skip"
+   | KLook -> " L=" ^ pid x.x_ret) ^ snap
+let do_regs line =
+  match String.split_on_char '|' line with
+  | [hd; progs; sched] ->
+    let pre = List.map (fun w -> match String.split_on_char '@' w with
+        | [n; t] -> let n = int_of_string n and t = int_of_string t in
+          if n < 0 || n >= maxn || t < 0 || t >= smaxt then raise Bad else (nat_of_int n, nat_of_int t)
+        | _ -> raise Bad) (List.tl (words hd)) in
+    let progs = List.map (fun th -> List.map parse_rop (words th))
+        (List.filter (fun th -> th <> "") (String.split_on_char '/' progs)) in
+    if List.length progs > smaxt || List.exists (fun p -> List.length p > smaxops) progs then raise Bad;
+    let nt = List.length progs in
+    let c0 = rinit code_fixes pre progs in
+    let c = ref c0 in
+    List.iter (fun t -> if t >= 0 then c := rstep code_fixes !c (nat_of_int t)) (ints sched);
+    let rounds = ref 0 and dl = ref false in
+    while not (r_all_done !c) && not !dl do
+      for t = 0 to nt - 1 do c := rstep code_fixes !c (nat_of_int t) done;
+      incr rounds; if !rounds > 1000 then dl := true
+    done;
+    let c = !c in
+    "init{" ^ String.concat "," (List.map (fun e -> string_of_int (int_of_nat e.e_iid) ^ "=" ^ string_of_int (int_of_nat e.e_name)) c0.h_reg) ^ "} | " ^
+    String.concat " | " (List.mapi (fun t th ->
+        "t" ^ string_of_int t ^ ":" ^ String.concat "" (List.map prres (List.rev th.q_res))) c.h_thr)
+    ^ " | reg[" ^ String.concat "," (List.map (fun e -> string_of_int (int_of_nat e.e_iid) ^ "=" ^ string_of_int (int_of_nat e.e_name)) c.h_reg)
+    ^ "]max=" ^ string_of_int (int_of_nat c.h_maxp - 1)
+    ^ " | steps:" ^ String.concat "" (List.map (fun th -> " " ^ string_of_int (int_of_nat th.q_steps)) c.h_thr)
+    ^ " | spins:" ^ String.concat "" (List.map (fun th -> " " ^ string_of_int (int_of_nat th.q_spins)) c.h_thr)
+    ^ (if !dl then " <deadlock>" else "")
+  | _ -> raise Bad
 let () =
   iter_cases Sys.argv.(1) (fun line ->
     if String.length line > 6 && String.sub line 0 6 = "sched " then (try do_sched line with _ -> "<bad case>") else
+    if String.length line >= 5 && String.sub line 0 5 = "regs " then (try do_regs line with _ -> "<bad case>") else
     let rec go s segs = function
       | [] ->
         let fin =
